@@ -1,5 +1,6 @@
 import Driver.C20
 import Driver.C01
+import Driver.C08
 import Driver.C19
 import Driver.C04
 import Driver.C05
@@ -30,6 +31,7 @@ structure St where
   c11 : C11.State := {}
   c13 : C13.State := {}
   c01 : C01.State := {}
+  c08 : C08.State := {}
   c19 : C19.State := {}
 
 def step (st : St) (line : String) : St × String :=
@@ -53,6 +55,7 @@ def step (st : St) (line : String) : St × String :=
   | "c01" :: rest => let (s, o) := C01.step st.c01 "c01" rest; ({ st with c01 := s }, o)
   | "c02" :: rest => let (s, o) := C01.step st.c01 "c02" rest; ({ st with c01 := s }, o)
   | "c19" :: rest => let (s, o) := C19.step st.c19 rest; ({ st with c19 := s }, o)
+  | "c08" :: rest => let (s, o) := C08.step st.c08 rest; ({ st with c08 := s }, o)
   | _ => (st, "bad-op\tn/a")
 
 partial def loop (h : IO.FS.Stream) (out : IO.FS.Stream) (st : St) : IO Unit := do
